@@ -311,7 +311,8 @@ Proof.
   destruct (varstr_roundtrip (to_le 4 h) rest Hs) as [ev' [Hev' R]]. rewrite Hev in Hev'. inversion Hev'; subst ev'.
   fuel_step fuel Hf f.
   cbn [app in_loop]. rewrite read_varstr_key1. cbn [bind Z.eqb Pos.eqb check]. rewrite Hn.
-  cbn [truthy_int negb check bind]. rewrite R. cbn [bind]. rewrite from_le_to_le by (rewrite pow256_4; lia).
+  cbn [truthy_int negb check bind]. rewrite R. cbn [bind]. rewrite to_le_length. cbn [Nat.eqb check bind].
+  rewrite from_le_to_le by (rewrite pow256_4; lia).
   reflexivity.
 Qed.
 
